@@ -16,27 +16,22 @@ COMMON_ASSUMPTIONS = [
 TRUSTED = ["pvc (own VC generator: /verif/pvc)", "z3 5.1 (E-matching on quantified dict/set axioms)", "python ast module"]
 
 
-def nice_sizes(ob, bound=3):
+def nice_sizes(ob, fallback, bound=3):
     n, c, k, m = z3.Int("n_state"), z3.Int("n_calibration"), z3.Int("n_control"), z3.Int("n_readings")
     for b in (bound, 5):
         r = smt.prove(ob.hyps + [n <= b, c <= b, k <= b, m <= b, n >= 1], ob.goal, timeout_ms=4000)
         if r.status == "sat" and r.model is not None:
             return r.model
-    return ob.result.model
+        if getattr(r, "candidate_model", None) is not None:
+            return r.candidate_model
+    return fallback
 
 
 def triage_generic(run, rep, native_fn, sig_prefix, extra_native=()):
     """Refuted obligation -> minimal sizes -> native run of the real code against the textbook oracle.
     EUF-level refutations that do not reproduce natively are recorded as undecided (abstraction too coarse)."""
-    seen = set()
-    for ob in rep.obligations:
-        if ob.result.status == "unknown":
-            run.undecided.append(ob.name)
-            continue
-        if ob.result.status != "sat" or ob.name in seen:
-            continue
-        seen.add(ob.name)
-        model = nice_sizes(ob)
+    for ob, model0, definitive in driver.refuted(run, rep):
+        model = nice_sizes(ob, model0)
         v = driver.model_values(model, ["n_state", "n_calibration", "n_control", "n_readings"])
         shape = [max(int(v.get("n_state") or 1), 1), int(v.get("n_calibration") or 0), int(v.get("n_control") or 0), max(int(v.get("n_readings") or 1), 1)]
         payload = {"language": "python", "function": rep.key, "solver_result": "sat", "counter_model": smt.model_to_dict(model), "inputs": {"shape": shape, "seed": run.seed}}
@@ -51,6 +46,14 @@ def triage_generic(run, rep, native_fn, sig_prefix, extra_native=()):
                 run.native_runs += 1
                 res = fn(shp, run.seed) if shp is not None else fn()
                 problems, sc = res[0], res[1]
+                if not problems and shp is not None:
+                    # same shape, symbols declared in lists in reverse name order
+                    try:
+                        res2 = fn(shp, run.seed, container="list")
+                        if res2[0]:
+                            problems, sc = res2[0], res2[1]
+                    except TypeError:
+                        pass
                 if problems:
                     payload["model_definition"] = sc.describe()
                     payload["oracle_verdict"] = problems[:6]
@@ -60,7 +63,7 @@ def triage_generic(run, rep, native_fn, sig_prefix, extra_native=()):
                     break
             except Exception as e:
                 payload["replay_error"] = repr(e)
-        if not confirmed and ob.theory == "euf":
+        if not confirmed and (ob.theory == "euf" or not definitive):
             run.undecided.append(ob.name + " (refuted over uninterpreted algebra only; native runs agree with the spec)")
             continue
         run.findings.append(Finding(ob.name, sig_prefix, what, payload, confirmed, theory=ob.theory))
